@@ -4,6 +4,8 @@ Line-protocol front end for `xflate.Reader.Reset`'s index parsing (kind `xo`).
 import Compress.Util
 import Compress.XFlate.Open
 import Compress.Drv.XFlateReader
+import Compress.XFlate.SeqRead
+import Compress.XFlate.WriterSpec
 
 namespace Compress.Drv
 open Compress.Util Compress.XFlate
@@ -17,6 +19,28 @@ def handleXo (kv : List (String × String)) : String :=
     match openIndex (parseVariant (lookupD kv "v" "fixed")) crc32IEEE bs with
     | .error e => s!"err:{errName (some e)}"
     | .ok r => s!"ok:{showRecs r.recs}"
+  | none => "bad-line"
+
+/-- the layout an RFC 1951 inflater behind `chunkReader` presents (same as
+    `Compress.Proofs.XFlateGlue.layoutOf`; `Compress.Props.C15.drv_layout_eq`). -/
+def layoutSpec (stream : List UInt8) (recs : List Record) : Layout :=
+  { recs := recs,
+    segs := (List.range (recs.length + 1)).map fun j =>
+      specSegInfo ((stream.drop (getRecords recs j).1.comp.toNat).take
+        ((getRecords recs j).2.comp - (getRecords recs j).1.comp).toNat) }
+
+/-- kind `xa`: open, then read sequentially to the end over the specification inflater. -/
+def handleXa (kv : List (String × String)) : String :=
+  match bytesOfHex (lookupD kv "stream" "-") with
+  | some bs =>
+    match openIndex .fixed crc32IEEE bs with
+    | .error e => s!"err:{errName (some e)}"
+    | .ok r =>
+      let L := layoutSpec bs r.recs
+      let (d, e) := seqRead L 4096 (r.recs.length + 8) (opened .fixed L) [] []
+      match e with
+      | some .eof => s!"{hexOfBytes d}:eof"
+      | e => s!"rerr:{errName e}"
   | none => "bad-line"
 
 end Compress.Drv
